@@ -98,6 +98,8 @@ impl PPipe {
                     _ => words.push(" ".to_string()),
                 }
             }
+            // white space around the equals sign is insignificant (also for `proj = …` itself)
+            let w = if w.contains('=') && r.chance(1, 5) { w.replacen('=', *r.pick(&[" = ", "= ", " =", "  =\t"]), 1) } else { w };
             words.push(w);
         };
         if self.pipeline {
